@@ -132,8 +132,14 @@ func init() {
 		return nil
 	}
 	harnessAPI["verifFail"] = func(fr *frame, args []value) value {
-		fr.i.assert(fr, false, args[0].(string))
-		return nil
+		site := ""
+		if fr != nil && fr.caller != nil {
+			site = fr.caller.site()
+		}
+		label := args[0].(string)
+		res := &PathResult{Kind: "violation", Label: label, Msg: "assertion failed: " + label, Site: site}
+		fr.i.fillModel(res)
+		panic(pathEnd{res})
 	}
 	harnessAPI["verifCover"] = func(fr *frame, args []value) value {
 		fr.i.covers[args[0].(string)] = true
@@ -249,12 +255,7 @@ func (i *interpreter) assert(fr *frame, cv value, label string) {
 	switch c := cv.(type) {
 	case bool:
 		if !c {
-			res := &PathResult{Kind: "violation", Label: label, Msg: "assertion failed: " + label, Site: site}
-			i.fillModel(res)
-			if res.Kind == "violation" || res.Kind == "solver" {
-				panic(pathEnd{res})
-			}
-			panic(pathEnd{res})
+			i.softFail(label, "assertion failed: "+label, site)
 		}
 	case sv:
 		var r Result
@@ -290,9 +291,7 @@ func (i *interpreter) assert(fr *frame, cv value, label string) {
 			i.assertPC(c.t)
 		case Sat:
 			i.assertPC(i.pool.Not(c.t))
-			res := &PathResult{Kind: "violation", Label: label, Msg: "assertion can fail: " + label, Site: site}
-			i.fillModel(res)
-			panic(pathEnd{res})
+			i.softFail(label, "assertion can fail: "+label, site)
 		default:
 			panic(pathEnd{&PathResult{Kind: "solver", Label: label, Msg: "assertion query inconclusive: " + lastSolverError, Site: site}})
 		}
@@ -300,6 +299,20 @@ func (i *interpreter) assert(fr *frame, cv value, label string) {
 		panic(fmt.Sprintf("verifAssert(%T)", cv))
 	}
 }
+
+// softFail records a failed oracle and lets the path continue (on the failing
+// side), so that the oracles of other properties further down the same path are
+// still evaluated and every failing label is attributed to its own property.
+func (i *interpreter) softFail(label, msg, site string) {
+	i.soft = append(i.soft, softViol{label, msg, site})
+	if len(i.soft) >= 24 {
+		res := &PathResult{Kind: "violation", Label: label, Msg: msg, Site: site}
+		i.fillModel(res)
+		panic(pathEnd{res})
+	}
+}
+
+type softViol struct{ label, msg, site string }
 
 // ---- globals and lazy package initialisation ----
 
@@ -528,6 +541,31 @@ func (i *interpreter) callMethod(fr *frame, it iface, name string, args ...value
 		return nil, false
 	}
 	return i.call(fr, token.NoPos, f, append([]value{it.v}, args...)), true
+}
+
+// fprint writes s to the io.Writer w by calling its Write method; writers the
+// engine treats as no-ops (os.Stdout/Stderr, loggers) swallow the text.
+func (i *interpreter) fprint(fr *frame, w value, s string) value {
+	it, ok := w.(iface)
+	if !ok || it.t == nil {
+		return tuple{0, iface{}}
+	}
+	if n, isNamed := derefNamed(it.t); isNamed && n.Obj().Pkg() != nil && n.Obj().Pkg().Path() == "os" {
+		return tuple{len(s), iface{}}
+	}
+	r, ok := i.callMethod(fr, it, "Write", fromBytes([]byte(s)))
+	if !ok {
+		return tuple{len(s), iface{}}
+	}
+	return r
+}
+
+func derefNamed(t types.Type) (*types.Named, bool) {
+	if p, ok := t.(*types.Pointer); ok {
+		t = p.Elem()
+	}
+	n, ok := t.(*types.Named)
+	return n, ok
 }
 
 // errorString returns err.Error() for an error interface value.
@@ -827,9 +865,23 @@ func init() {
 		"fmt.Println": func(fr *frame, a []value) value { return tuple{0, iface{}} },
 		"fmt.Printf":  func(fr *frame, a []value) value { return tuple{0, iface{}} },
 		"fmt.Print":   func(fr *frame, a []value) value { return tuple{0, iface{}} },
-		"fmt.Fprintf": func(fr *frame, a []value) value { return tuple{0, iface{}} },
-		"fmt.Fprintln": func(fr *frame, a []value) value { return tuple{0, iface{}} },
-		"fmt.Fprint":  func(fr *frame, a []value) value { return tuple{0, iface{}} },
+		"fmt.Fprintf": func(fr *frame, a []value) value {
+			return fr.i.fprint(fr, a[0], fr.i.sprintf(fr, a[1].(string), a[2].([]value)))
+		},
+		"fmt.Fprintln": func(fr *frame, a []value) value {
+			var xs []any
+			for _, x := range a[1].([]value) {
+				xs = append(xs, fr.i.toNativeArg(fr, x))
+			}
+			return fr.i.fprint(fr, a[0], fmt.Sprintln(xs...))
+		},
+		"fmt.Fprint": func(fr *frame, a []value) value {
+			var xs []any
+			for _, x := range a[1].([]value) {
+				xs = append(xs, fr.i.toNativeArg(fr, x))
+			}
+			return fr.i.fprint(fr, a[0], fmt.Sprint(xs...))
+		},
 		"strconv.Itoa": func(fr *frame, a []value) value { return strconv.Itoa(int(fr.i.intArg(a[0]))) },
 		"strconv.Atoi": func(fr *frame, a []value) value {
 			n, err := strconv.Atoi(a[0].(string))
@@ -1127,6 +1179,26 @@ func (i *interpreter) toNativeArg(fr *frame, v value) any {
 		return "<symbolic>" // messages are opaque; never fork on a value only because it is printed
 	case []value:
 		// []byte?
+		allBytes := len(v) > 0
+		for _, e := range v {
+			if _, ok := e.(uint8); !ok {
+				allBytes = false
+				break
+			}
+		}
+		if allBytes {
+			b := make([]byte, len(v))
+			for k, e := range v {
+				b[k] = e.(uint8)
+			}
+			return b
+		}
+		out := make([]any, len(v))
+		for k, e := range v {
+			out[k] = i.toNativeArg(fr, e)
+		}
+		return out
+	case array:
 		allBytes := len(v) > 0
 		for _, e := range v {
 			if _, ok := e.(uint8); !ok {
